@@ -130,48 +130,56 @@ Definition hexval (c : N) : option N :=
 (** literal representation allowed: printable ASCII except "=", and blank / tab *)
 Definition qp_literal (c : N) : bool := (N.leb 33 c && N.leb c 126 && negb (N.eqb c EQ)) || N.eqb c SP || N.eqb c HT.
 
-(** one encoded line (without its CRLF): decoded octets and whether it ends in a soft line break.
-    Strict: [None] for anything an RFC 2045 encoder may not produce — a raw octet outside the
-    literal set, "=" not followed by two upper-case hex digits, blank or tab at the end of the line
-    (a receiver would have to delete it as transport padding). *)
-Fixpoint qp_line (l : bytes) : option (bytes * bool) :=
-  match l with
-  | [] => Some ([], false)
+Definition QP_MAXLINE : nat := 76.
+
+(** The receiver of a body that is declared quoted-printable, working on the wire octets [d] (dots
+    still stuffed) from left to right.  [col] = octets of the current encoded line seen so far, not
+    counting a transparency dot; [bol] = at the beginning of a wire line.
+      - a dot at the beginning of a line is the transparency dot and is dropped;
+      - "=" CRLF is a soft line break, "=" and two upper-case hex digits an octet, CRLF a line break;
+      - every other octet must be a literal (printable ASCII except "=", blank, tab).
+    Strict, [None] for anything an RFC 2045 encoder may not produce: a raw octet outside the literal
+    set, a malformed "=" sequence, a bare CR or LF, blank or tab at the end of a line (a receiver
+    would have to delete it as transport padding), an encoded line of more than 76 octets, data
+    that does not end at a line end. *)
+Fixpoint qp_decode (col : nat) (bol : bool) (d : bytes) : option bytes :=
+  match d with
+  | [] => if Nat.eqb col 0 then Some [] else None
   | c :: r =>
-      if N.eqb c EQ then
+      if bol && N.eqb c DOT then
+        match r with [] => None | _ => qp_decode col false r end
+      else if N.eqb c CR then
         match r with
-        | [] => Some ([], true)
+        | c2 :: r2 => if N.eqb c2 LF && Nat.leb col QP_MAXLINE then
+                        match qp_decode 0 true r2 with Some o => Some (CR :: LF :: o) | None => None end
+                      else None
+        | [] => None
+        end
+      else if N.eqb c EQ then
+        match r with
         | a :: r1 =>
             match r1 with
             | b :: r2 =>
-                match hexval a, hexval b with
-                | Some x, Some y =>
-                    match qp_line r2 with Some (o, s) => Some ((16 * x + y)%N :: o, s) | None => None end
-                | _, _ => None
-                end
+                if N.eqb a CR && N.eqb b LF then
+                  if Nat.leb (S col) QP_MAXLINE then qp_decode 0 true r2 else None
+                else
+                  match hexval a, hexval b with
+                  | Some x, Some y =>
+                      match qp_decode (col + 3) false r2 with Some o => Some ((16 * x + y)%N :: o) | None => None end
+                  | _, _ => None
+                  end
             | [] => None
             end
+        | [] => None
         end
       else if qp_literal c then
         match r with
-        | [] => if N.eqb c SP || N.eqb c HT then None else Some ([c], false)
-        | _ => match qp_line r with Some (o, s) => Some (c :: o, s) | None => None end
+        | c2 :: _ =>
+            if (N.eqb c SP || N.eqb c HT) && N.eqb c2 CR then None
+            else match qp_decode (S col) false r with Some o => Some (c :: o) | None => None end
+        | [] => None
         end
       else None
-  end.
-
-Definition QP_MAXLINE : nat := 76.
-
-(** decode the lines of an encoded body; every encoded line at most 76 octets *)
-Fixpoint qp_decode_lines (ls : list bytes) : option bytes :=
-  match ls with
-  | [] => Some []
-  | l :: ls' =>
-      if Nat.ltb QP_MAXLINE (length l) then None else
-      match qp_line l, qp_decode_lines ls' with
-      | Some (o, soft), Some rest => Some (o ++ (if soft then [] else CRLF) ++ rest)
-      | _, _ => None
-      end
   end.
 
 (** "a final CRLF added if missing" *)
@@ -181,10 +189,10 @@ Definition with_final_crlf (d : bytes) : bytes :=
   | _ => if ends_crlf d then d else d ++ CRLF
   end.
 
-(** C07 for a body that was recoded: the wire lines [ws] (already split at CRLF, dots still stuffed)
-    decode to the normalised original *)
-Definition qp_roundtrip (orig : bytes) (ws : list bytes) : Prop :=
-  exists d, qp_decode_lines (map unstuff_line ws) = Some d /\ with_final_crlf d = normalise orig.
+(** C07 for a body that was recoded: the wire octets [wire] (complete lines) decode to the
+    normalised original, up to the CRLF that ends the last line *)
+Definition qp_roundtrip (orig wire : bytes) : Prop :=
+  exists d, qp_decode 0 true wire = Some d /\ with_final_crlf d = normalise orig.
 
 (* ------------------------------------------------------------------ when must a message be recoded *)
 (** octets that cannot go into a 7-bit transfer as they are: NUL and everything above 127
